@@ -19,7 +19,8 @@ Contract (same options on both sides; everything mapped back to the original nam
   gradient         Real, float64, seeded cotangent (permuted accordingly): same tolerance 1e-9 on every factor entry,
                    None only where the plain presentation has None or all zeros
   viterbi          for every start assignment with a finite best weight: total log-weight of the returned derivation
-                   (sum of the terminal log-weights at the assigned values, walked through the derivation tree)
+                   (Viterbi-semiring product of the terminal log-weights at the assigned values, walked through the
+                   derivation tree; a factor -inf makes the product -inf, also next to +inf)
                    agrees within 1e-9 (float64 Viterbi semiring); a presentation that raises where the plain one returns
                    (or vice versa) violates the clause
 Scope: grammars whose reference value in the semiring is finite-or-inf but convergent (divergent recursive grammars
@@ -303,9 +304,11 @@ def _deriv_weight(recipe, info, deriv, wlog, perms, budget: List[int]) -> float:
     for k, e in enumerate(rr["edges"]):
         idx = [vals[j] for j in e["att"]]
         if recipe["edge_labels"][e["label"]]["terminal"]:
-            total += G.nested_get(wlog[e["label"]], idx)
+            w = G.nested_get(wlog[e["label"]], idx)
         else:
-            total += _deriv_weight(recipe, info, deriv.children[edges[k]], wlog, perms, budget)
+            w = _deriv_weight(recipe, info, deriv.children[edges[k]], wlog, perms, budget)
+        # product of the Viterbi semiring: a zero factor (log-weight -inf) makes the product zero, also next to +inf
+        total = -INF if (w == -INF or total == -INF) else total + w
     return total
 
 
@@ -458,6 +461,7 @@ def check_grammar(recipe, presentations: List[dict], seed_key: str):
     n = 0
     stats: Dict[str, int] = {}
     base = [run_check(recipe, None, c, cot) for c in checks]
+    feats = G.features_of(recipe)
     for c, b in zip(checks, base):
         if b["status"] != "ok":
             stats["plain-presentation-raises"] = stats.get("plain-presentation-raises", 0) + 1
@@ -480,6 +484,8 @@ def check_grammar(recipe, presentations: List[dict], seed_key: str):
             if kind.startswith("exception"):
                 exc = (o.get("exc") or b.get("exc") or "?").split(":")[0]
                 kind = f"{kind}:{exc}"
+            if "zero_next_to_inf" in feats:
+                who += ":zero-next-to-inf"
             fails.append({"clause": clause, "kind": kind, "key": f"{keyhead}:{kind}:{who}",
                           "detail": f"{what}, presentation aspects {aspects_of(pres)} (responsible: {who}): {detail}",
                           "case": {"recipe": recipe, "presentation": pres, "check": list(c), "cotangent": cot}})
@@ -496,10 +502,23 @@ def _worker(chunk):
     return out
 
 
+def handwritten() -> List[dict]:
+    """two rules of one nonterminal, one of them 0 x inf at some start assignment (its value there is 0), the other finite:
+    the shape on which the order of the rules is visible to a max that does not treat 0 x inf as 0."""
+    T, N = True, False
+    out = [G._mk({"N0": 2}, {"S": (["N0"], N), "a": (["N0"], T), "b": (["N0"], T), "c": (["N0"], T)}, "S",
+                 [("S", ["N0"], [("a", [0]), ("b", [0])], [0]), ("S", ["N0"], [("c", [0])], [0])],
+                 {"a": [0.0, 1.0], "b": [G.INF, 2.0], "c": [0.5, 0.25]}, {"family": "zero-times-inf-rule-next-to-finite-rule"}),
+           G._mk({"N0": 2}, {"S": ([], N), "X": (["N0"], N), "d": ([], T), "e": (["N0"], T), "c": (["N0"], T)}, "S",
+                 [("S", ["N0"], [("X", [0])], []), ("X", ["N0"], [("c", [0])], [0]), ("X", ["N0"], [("d", []), ("e", [0])], [0])],
+                 {"d": G.INF, "e": [0.0, 0.0], "c": [0.5, 0.25]}, {"family": "zero-times-inf-rule-after-finite-rule"})]
+    return out
+
+
 def grammars(tier: str, rng) -> List[dict]:
     n_nonrec, n_rec = (40, 20) if tier == "quick" else (1000, 500)
-    out: List[dict] = []
-    seen = set()
+    out: List[dict] = handwritten()
+    seen = {G.canonical(g) for g in out}
     def take(src, n, want_edges=True):
         k = 0
         for g in src:
